@@ -627,3 +627,6 @@ def run_case(r, obs):
                 obs.count("violations_beyond_the_first_%d_per_mechanism_and_worker"
                           % MAX_PER_MECH)
         obs.violations[:] = kept
+
+
+RULE += (' Added: one mutable data object refilled in place between applications of a Compose; attribute changes between applications (assignment, var_context, in-place list change).')
